@@ -263,8 +263,10 @@ void kerl_add_history(const char *s)
   if (history_file) {
     char* escaped = escape(s);
     FILE *fp = fopen(history_file, "a");
-    fprintf(fp, "%s\n", escaped ?: s);
-    fclose(fp);
+    if (fp) { // the history file may not be writable (read-only directory, a directory of that name, ...)
+      fprintf(fp, "%s\n", escaped ?: s);
+      fclose(fp);
+    }
     if (escaped) free(escaped);
   }
 }
